@@ -166,6 +166,7 @@ Proof.
   intros Q H D w B.
   assert (NP : is_phase m = false) by (destruct m; try reflexivity; discriminate Q).
   assert (ND : is_de m = false) by (destruct m; try reflexivity; discriminate Q).
+  assert (NLK : m <> MLeaks) by (intros ->; discriminate Q).
   destruct (handle_qmop _ _ _ _ Q H) as [QP HC].
   assert (PD : existsb is_de pre = false) by (destruct QP as [QA _]; apply (work_plain _ QA)).
   rewrite (bde_app _ _ PD) in B. destruct (before_de k0) as [w0|] eqn:E; [|discriminate]. simpl in B. inversion B; subst w; clear B.
@@ -173,7 +174,7 @@ Proof.
   { cbn [before_de]. rewrite ND, E. reflexivity. }
   simpl in A. apply andb_prop in A as [_ A]. split; [|split].
   - rewrite forallb_app, (quiet_qmop _ QP), A. reflexivity.
-  - destruct (r_lit _ _ (handle_R _ _ _ _ NP H) (XN_nocore _ X)) as (L1 & L2 & L3). eapply LE_same; eauto.
+  - destruct (r_lit _ _ (handle_R _ _ _ _ NP NLK H) (XN_nocore _ X)) as (L1 & L2 & L3). eapply LE_same; eauto.
   - unfold XN in *. destruct HC as [O|c M C P S|fr rest M FR P S].
     + destruct O as [EF _|s1 loc EF -> _].
       * rewrite (eff_ctxs _ _ EF). exact X.
@@ -318,6 +319,16 @@ Proof.
   - (* MDropEnd *) congruence.
 Qed.
 
+(* when the leak report is due: no Stakker is alive, the lazy / idle queues and the timers are empty, and a closure
+   instance still in the main queue was submitted after the last [Core::new] *)
+Lemma SI_leaks s : SI [MLeaks] s -> alive s = false /\ LE s /\ MQ s.
+Proof.
+  intros [M A D E].
+  assert (AL : alive s = false).
+  { destruct (alive s) eqn:X; auto. destruct E as [E1 _]; [intros [Q|[]]; discriminate Q|]. specialize (E1 X). discriminate E1. }
+  auto.
+Qed.
+
 Theorem step_SI k s k' s' : shape k -> FL k s -> Tail k s -> SI k s -> step k s = Some (k', s') -> SI k' s'.
 Proof.
   intros SH F T [M A D E] ST. destruct k as [|m k0]; [discriminate|]. simpl in ST.
@@ -325,7 +336,17 @@ Proof.
   destruct (is_phase m) eqn:P.
   - destruct (phase_step _ _ _ _ _ P H SH F M A D) as (M' & A' & D' & _ & AL).
     split; auto. eapply EI_step; eauto.
-  - pose proof (handle_R _ _ _ _ P H) as RR.
+  - assert (ML : m = MLeaks \/ m <> MLeaks) by (destruct m; auto; right; discriminate).
+    destruct ML as [->|NLK].
+    { destruct (Tail_leaks _ _ T) as (-> & _ & _). destruct (SI_leaks _ (mkSI _ _ M A D E)) as (AL & L & _).
+      cbn [handle] in H. inversion H; subst. split.
+      - apply MQ_set_tr; [|apply (r_mq _ _ (R_class_flags _ _ (R_refl s)) M)].
+        apply forallb_forall. intros e IN. apply in_rev in IN. unfold leaks in IN. apply in_map_iff in IN as (q & <- & _). reflexivity.
+      - intros _. destruct (r_lit _ _ (R_class_flags _ _ (R_refl s))) as (L1 & L2 & L3); [unfold has_core; rewrite AL; reflexivity|].
+        eapply LE_same; [| | |exact L]; assumption.
+      - intros w B. discriminate B.
+      - intros _. split; [|reflexivity]. intros X. cbn [alive set_tr] in X. rewrite (r_alive _ _ (R_class_flags _ _ (R_refl s))) in X. congruence. }
+    pose proof (handle_R _ _ _ _ P NLK H) as RR.
     assert (AL : alive s' = alive s) by (apply (r_alive _ _ RR)).
     split.
     + apply (r_mq _ _ RR M).
@@ -357,12 +378,3 @@ Proof.
   - intros NI. exfalso. apply NI, in_or_app. right. left. reflexivity.
 Qed.
 
-(* when the leak report is due: no Stakker is alive, the lazy / idle queues and the timers are empty, and a closure
-   instance still in the main queue was submitted after the last [Core::new] *)
-Lemma SI_leaks s : SI [MLeaks] s -> alive s = false /\ LE s /\ MQ s.
-Proof.
-  intros [M A D E].
-  assert (AL : alive s = false).
-  { destruct (alive s) eqn:X; auto. destruct E as [E1 _]; [intros [Q|[]]; discriminate Q|]. specialize (E1 X). discriminate E1. }
-  auto.
-Qed.
